@@ -151,7 +151,7 @@ VARIANT = os.environ.get("C14_MODEL_VARIANT", "current")
 DATA_TOL = 1e-10
 # which statements the buffer-identity machine mirrors: "current" (BaseSetup._detrend_data forwards overwrite_data to scipy:
 # today's tree) or "repaired" (after proposed_fixes/fix_g11.diff: accepted, not forwarded)
-OWN = os.environ.get("C14_OWN_VARIANT", "current")
+OWN = os.environ.get("C14_OWN_VARIANT", "repaired")  # "current" = the tree before fix bea574c (overwrite_data reached scipy)
 OW_SIG = "mutated-user-array:detrend(overwrite_data=True)"
 
 
